@@ -86,7 +86,10 @@ PROPS = {
                  "pairs for recursive catalog types. The S' target is pre-populated (added and skipped fields hold generated values, also inside "
                  "nested structs and behind pointers). Oracle: Unmarshal(Marshal_S(v), &s') == nil and s' equals the projection computed on the "
                  "harness's value model (shared indexes: value decoded as in S; others: prior value). Non-trivial = a removed field with a "
-                 "non-zero value precedes a surviving non-zero field in the encoding; labels record the skipped wire forms; distinct by case hash."),
+                 "non-zero value precedes a surviving non-zero field in the encoding; labels record the skipped wire forms; distinct by case hash. "
+                 "One level down (time-unknown-fields): in plenc's own encoding of struct{int64; time.Time; string; []time.Time; int64} every time "
+                 "message gets 0-3 extra fields (indexes 3..70000, every wire type, well-formed payloads) at generated positions and its two "
+                 "known fields optionally swapped; the decode must equal the decode of the untouched bytes, under all four configurations."),
         "jobs": [{"run": "^TestC03", "shards": 64, "quick_shards": 4, "timeout_quick": 600, "timeout_thorough": 3000}],
     },
     "C10": {
